@@ -34,6 +34,10 @@ def cases(tier='quick'):
     hcp = crystal.Crystal.HCP(1., chemistry='A')
     b2 = crystal.Crystal(np.eye(3), [[np.zeros(3)], [0.5 * np.ones(3)]], chemistry=['A', 'B'])
     two = 2 * np.eye(3, dtype=int)
+    # low symmetry, mobile species on two inequivalent sublattices (plus a spectator): jump types confined to one
+    # sublattice and jump types connecting the two
+    low2 = crystal.Crystal(np.array([[1., 0.1, 0.], [0., 1.1, 0.15], [0.05, 0., 1.2]]).T,
+                           [[np.array([0., 0., 0.]), np.array([0.5, 0.45, 0.4])], [np.array([0.25, 0.7, 0.8])]], chemistry=['A', 'B'])
     out = [
         mk('FCC 2x2x2 nn clusters order 3', fcc, two, 0.8, 3),
         mk('FCC 2x2x2 long-range pairs (wrap onto own image)', fcc, two, 1.5, 2),
@@ -41,10 +45,15 @@ def cases(tier='quick'):
         mk('FCC 2x2x2 vacancy at 3 + jumps + TS', fcc, two, 0.8, 2, vacancy=3, jumps=0.8),
         mk('B2 2x1x1 nondiag, B spectator', b2, [[1, 1, 0], [0, 2, 0], [0, 0, 2]], 0.9, 3, spectator=(1,), jumps=1.01),
         mk('HCP 2x2x1 nn + jumps', hcp, np.diag([2, 2, 1]), 1.01, 2, jumps=1.01),
+        # one cell wide along a cluster direction: clusters fold onto their own / the vacancy's periodic image
+        mk('FCC diag(1,2,3) nn + vacancy at 0', fcc, np.diag([1, 2, 3]), 0.8, 2, vacancy=0, jumps=0.8),
+        mk('FCC diag(1,2,3) nn order 3', fcc, np.diag([1, 2, 3]), 0.8, 3),
+        mk('low-symmetry 2 sublattices 2x2x1, vacancy on sublattice 0', low2, np.array([[1, 1, 0], [0, 2, 0], [0, 0, 1]]), 0.95, 2, spectator=(1,), vacancy=0, jumps=1.12),
+        mk('low-symmetry 2 sublattices 2x2x1, vacancy on sublattice 1', low2, np.array([[1, 1, 0], [0, 2, 0], [0, 0, 1]]), 0.95, 2, spectator=(1,), vacancy=1, jumps=1.12),
     ]
     if tier == 'thorough':
         out += [
-            mk('FCC diag(1,2,3) nn', fcc, np.diag([1, 2, 3]), 0.8, 3, jumps=0.8),
+            mk('FCC diag(3,1,2) nn + jumps', fcc, np.diag([3, 1, 2]), 0.8, 3, jumps=0.8),
             mk('HCP 2x2x1 vacancy at 5', hcp, np.diag([2, 2, 1]), 1.01, 2, vacancy=5, jumps=1.01),
             mk('B2 2x2x1 both mobile', b2, np.diag([2, 2, 1]), 0.9, 2, jumps=1.01, chem=0),
             mk('FCC 2x2x2 long range + vacancy', fcc, two, 1.5, 2, vacancy=0, jumps=0.8),
